@@ -33,13 +33,36 @@ type arStep struct {
 
 // iterate runs LoadAr + Next to the end under a step budget and a panic guard.
 func iterateAr(b []byte, withData bool) (steps []interface{}, entries []*deb.ArEntry, panicked string) {
+	return iterateArVia(b, withData, "bytes")
+}
+
+// arInput: the archive as the io.ReaderAt handed to LoadAr.  "section-*": a SectionReader over a larger buffer
+// in which the archive is preceded and followed by other bytes (an ar nested in a file; a member of another ar).
+func arInput(b []byte, via string) io.ReaderAt {
+	switch via {
+	case "section-junk", "section-member":
+		prefix := bytes.Repeat([]byte("J"), 37)
+		suffix := []byte("trailing bytes that are not an ar member header, sixty or more of them......")
+		if via == "section-member" {
+			suffix = []byte(fmt.Sprintf("%-16s%-12d%-6d%-6d%-8s%-10d`\nDATA", "after", 1, 0, 0, "100644", 4))
+			if len(b)%2 == 1 {
+				suffix = append([]byte("\n"), suffix...)
+			}
+		}
+		big := append(append(append([]byte{}, prefix...), b...), suffix...)
+		return io.NewSectionReader(bytes.NewReader(big), int64(len(prefix)), int64(len(b)))
+	}
+	return bytes.NewReader(b)
+}
+
+func iterateArVia(b []byte, withData bool, via string) (steps []interface{}, entries []*deb.ArEntry, panicked string) {
 	steps = []interface{}{}
 	defer func() {
 		if r := recover(); r != nil {
 			panicked = fmt.Sprint(r)
 		}
 	}()
-	ar, err := deb.LoadAr(bytes.NewReader(b))
+	ar, err := deb.LoadAr(arInput(b, via))
 	if err != nil {
 		steps = append(steps, J{"ret": "err", "at": "open"})
 		return
@@ -82,7 +105,8 @@ func execAr(vec J, out *Writer) {
 	case "ar":
 		// well-formed archive rendered by the TLA+ specification
 		b := []byte(S(vec["bytes"]))
-		steps, entries, p := iterateAr(b, true)
+		via, _ := vec["via"].(string)
+		steps, entries, p := iterateArVia(b, true, via)
 		// readers of earlier members stay valid after the iterator has advanced
 		late := []interface{}{}
 		func() {
